@@ -347,15 +347,43 @@ def _coerce(cls, name, a, v, done, context):
 
 
 class RootModel(BaseModel):
+    __root_type__ = None
+
     def __class_getitem__(cls, item):
-        return cls
+        return type(f"RootModel[{item}]", (cls,), {"__root_type__": item, "__module__": cls.__module__})
 
     def __init__(self, root=..., **data):
-        object.__setattr__(self, "root", data if root is ... else root)
+        object.__setattr__(self, "root", self._coerce_root(data if root is ... else root, None))
+
+    @classmethod
+    def _coerce_root(cls, v, context):
+        import typing
+        t = cls.__root_type__
+        origin, args = typing.get_origin(t), typing.get_args(t)
+        if origin is list and args and isinstance(args[0], type) and issubclass(args[0], BaseModel):
+            if sc.is_strlike(v) or isinstance(v, (dict, SymDict)):
+                raise ValidationError("root: not a list")
+            return [x if isinstance(x, args[0]) else args[0].model_validate(x, context=context) for x in v]
+        if origin is dict and args:
+            if not isinstance(v, (dict, SymDict)):
+                raise ValidationError("root: not a dict")
+            kt = args[0]
+            out = SymDict()
+            for k, x in v.items():
+                if isinstance(kt, type) and hasattr(kt, "_validate"):
+                    try:
+                        k = kt._validate(k, _Info({}, context))
+                    except ValueError as e:
+                        raise ValidationError(f"root key: {type(e).__name__}") from None
+                out[k] = x
+            return out
+        return v
 
     @classmethod
     def model_validate(cls, obj, *, context=None, **kw):
-        return cls(obj)
+        self = cls.__new__(cls)
+        object.__setattr__(self, "root", cls._coerce_root(obj, context))
+        return self
 
     def __eq__(self, other):
         return type(self) is type(other) and _deep_eq(self.root, other.root)
